@@ -389,6 +389,123 @@ def _(T):
     return dict(wrap=wrap, drop=drop, model=model)
 
 
+
+def _fname(node):
+    """f'name{suffix}' → 'name'"""
+    if isinstance(node, ast.JoinedStr) and node.values and isinstance(node.values[0], ast.Constant):
+        return node.values[0].value
+    if isinstance(node, ast.Constant) and isinstance(node.value, str):
+        return node.value
+    raise Miss("site name not an f-string")
+
+
+def _calls(fn, name):
+    return [n for n in ast.walk(fn) if isinstance(n, ast.Call)
+            and getattr(n.func, "id", getattr(n.func, "attr", None)) == name]
+
+
+@extractor("loss_consts")
+def _(T):
+    tree, src = T["loss.py"]
+    out = {}
+    # Student-t
+    st = find_func(tree, "student_t_loss")
+    nu = None
+    for n in st.body:
+        if isinstance(n, ast.Assign) and getattr(n.targets[0], "id", None) == "nu":
+            nu = num(n.value, src)
+    if nu is None:
+        nu = num(defaults_of(st)["nu"], src)
+    out["nu"] = fr(nu)
+    out["nuSys"] = fr(num(defaults_of(find_func(tree, "student_t_loss_free_sys"))["nu"], src))
+    # pseudo-Huber
+    ph = find_func(tree, "pseudo_huber_loss")
+    out["delta"] = fr(num(defaults_of(ph)["delta"], src))
+    fac = _calls(ph, "factor")
+    if len(fac) != 1:
+        raise Miss("pseudo_huber_loss: factor call not found")
+    expr = fac[0].args[1]
+
+    def has_delta_sq(e):
+        for x in ast.walk(e):
+            if isinstance(x, ast.BinOp) and isinstance(x.op, ast.Pow) and getattr(x.left, "id", None) == "delta":
+                try:
+                    if num(x.right, src) == 2:
+                        return True
+                except Miss:
+                    pass
+            if (isinstance(x, ast.BinOp) and isinstance(x.op, ast.Mult) and getattr(x.left, "id", None) == "delta"
+                    and getattr(x.right, "id", None) == "delta"):
+                return True
+        return False
+    # the δ² prefactor multiplies the whole bracket; (res/delta)**2 inside the sqrt is not it
+    top = expr
+    prefactor = False
+    stack = [top]
+    while stack:
+        e = stack.pop()
+        if isinstance(e, ast.BinOp) and isinstance(e.op, ast.Mult):
+            for side in (e.left, e.right):
+                if not any(isinstance(c, ast.Call) for c in ast.walk(side)) and has_delta_sq(side):
+                    prefactor = True
+            stack += [e.left, e.right]
+        elif isinstance(e, ast.UnaryOp):
+            stack.append(e.operand)
+    out["huberDeltaSq"] = prefactor
+    # mixtures
+    cs = {str(num(defaults_of(find_func(tree, f))["c"], src)) for f in ("gaussian_mixture", "gaussian_mixture_w_sys", "gaussian_mixture_w_frac")}
+    if len(cs) != 1:
+        raise Miss("mixture losses disagree on c")
+    out["c"] = fr(Fraction(cs.pop()))
+    # truncated-normal nuisance priors, by site name
+    tn = {}
+    scale_contam = set()
+    mean_where = set()
+    for fn in tree.body:
+        if not isinstance(fn, ast.FunctionDef):
+            continue
+        for call in _calls(fn, "sample"):
+            if len(call.args) >= 2 and isinstance(call.args[1], ast.Call) and getattr(call.args[1].func, "attr", None) == "TruncatedNormal":
+                name = _fname(call.args[0])
+                kw = {k.arg: fr(num(k.value, src)) for k in call.args[1].keywords}
+                if name in tn and tn[name] != kw:
+                    raise Miss(f"nuisance prior {name} differs between loss functions")
+                tn[name] = kw
+        for call in _calls(fn, "deterministic"):
+            name = _fname(call.args[0])
+            if name == "outlier_frac":
+                e = call.args[1]
+                if isinstance(e, ast.BinOp) and isinstance(e.op, ast.Mult):
+                    scale_contam.add(str(num(e.right, src)))
+            if name == "sys_rms":
+                means = _calls(call.args[1], "mean")
+                if len(means) != 1:
+                    raise Miss("sys_rms: mean(rms) not found")
+                mean_where.add(any(k.arg == "where" for k in means[0].keywords))
+    if len(scale_contam) != 1 or len(mean_where) != 1:
+        raise Miss("outlier_frac scale / sys_rms mean not uniform across losses")
+    out["contamScale"] = fr(Fraction(scale_contam.pop()))
+    out["sysMeanOverGood"] = mean_where.pop()
+    def g(name, key, default=None):
+        v = tn[name].get(key)
+        if v is None:
+            if default is None:
+                raise Miss(f"{name}.{key} missing")
+            return default
+        return v
+    out["fracLow"], out["fracHigh"] = g("frac_rms_increase", "low"), g("frac_rms_increase", "high")
+    if g("sys_rms_base", "low") != [0, 1] or "high" in tn["sys_rms_base"] or g("sys_rms_base", "scale", [1, 1]) != [1, 1]:
+        raise Miss("sys_rms_base prior changed shape")
+    if g("outlier_frac_base", "low") != [0, 1] or g("outlier_frac_base", "scale", [1, 1]) != [1, 1]:
+        raise Miss("outlier_frac_base prior changed shape")
+    out["contamHigh"] = g("outlier_frac_base", "high")
+    out["sigFracLow"], out["sigFracHigh"] = g("rms_frac", "low"), g("rms_frac", "high")
+    out["sigFracScale"] = g("rms_frac", "scale", [1, 1])
+    if g("rms_frac", "loc", [0, 1]) != [0, 1]:
+        raise Miss("rms_frac prior no longer centred on 0")
+    return out
+
+
 # ----------------------------------------------------------------------------
 # Lean emission
 # ----------------------------------------------------------------------------
@@ -414,6 +531,7 @@ def emit(c):
     A("import PysersicModel.Scalar")
     A("import PysersicModel.IO.Validate")
     A("import PysersicModel.IO.Results")
+    A("import PysersicModel.Prob.Loss")
     A("")
     A("namespace Pysersic.Gen")
     A("")
@@ -447,6 +565,16 @@ def emit(c):
     A("def profileTypesRender : List String := " + lean_list([lean_str(x) for x in tl["profile_types_render"]]))
     A("def profileTypesPriors : List String := " + lean_list([lean_str(x) for x in tl["profile_types_priors"]]))
     A("def skyTypes : List String := " + lean_list([lean_str(x) for x in tl["sky_types"]]))
+    A("")
+    lc = c["loss_consts"]
+    b = lambda x: "true" if x else "false"  # noqa: E731
+    A("/-- constants and structural facts of loss.py -/")
+    A("def lossConsts : Prob.LossConstsQ :=")
+    A(f"  {{ nu := {lean_q(lc['nu'])}, nuSys := {lean_q(lc['nuSys'])}, delta := {lean_q(lc['delta'])}, huberDeltaSq := {b(lc['huberDeltaSq'])},")
+    A(f"    c := {lean_q(lc['c'])}, fracLow := {lean_q(lc['fracLow'])}, fracHigh := {lean_q(lc['fracHigh'])},")
+    A(f"    contamHigh := {lean_q(lc['contamHigh'])}, contamScale := {lean_q(lc['contamScale'])},")
+    A(f"    sigFracLow := {lean_q(lc['sigFracLow'])}, sigFracHigh := {lean_q(lc['sigFracHigh'])}, sigFracScale := {lean_q(lc['sigFracScale'])},")
+    A(f"    sysMeanOverGood := {b(lc['sysMeanOverGood'])} }}")
     A("")
     rt = c["results_tests"]
     A("/-- name tests of `_parse_injested_data` (results.py), translated from the source -/")
